@@ -1,5 +1,6 @@
 import Firefly.Gen.C07Expr
 import Firefly.Model.AddrSpace
+import Firefly.Proof.Bits
 /-!
 Tie lemmas for C07: the integer expressions and guards that `tools/exprgen` regenerates from the Go
 source on every run are *the same terms* the model is built from. A changed expression in
@@ -35,5 +36,60 @@ theorem tie_identity_pageCount (size : W) :
   unfold identityPageCount roundUp pageSizeW
   apply BitVec.eq_of_toNat_eq
   simp [BitVec.toNat_ushiftRight, Firefly.Gen.C07.pageShift]
+
+end Firefly.Tie.C07
+
+namespace Firefly.Tie.C07
+open Firefly.AddrSpace Firefly.Gen.C07Expr
+
+/-! goruntime's `sysReserve` / `sysMap` / `sysAlloc` (clients of the reservation) -/
+
+private theorem pageSizeW_eq' : pageSizeW = 4096#64 := by decide
+
+theorem tie_gort_round (size : W) :
+    gortReserveSize size = roundUp size ∧ gortMapSize size = roundUp size ∧ gortAllocSize size = roundUp size := by
+  have h : ∀ s : W, ((s + BitVec.ofNat 64 Firefly.Gen.C07.pageSize) - 1#64) = s + (pageSizeW - 1) := by
+    intro s
+    rw [pageSizeW_eq']
+    have : BitVec.ofNat 64 Firefly.Gen.C07.pageSize = 4096#64 := by decide
+    rw [this]
+    apply BitVec.eq_of_toNat_eq
+    simp [BitVec.toNat_add, BitVec.toNat_sub]
+    omega
+  unfold gortReserveSize gortMapSize gortAllocSize roundUp
+  rw [h]
+  exact ⟨rfl, rfl, rfl⟩
+
+theorem tie_gort_mapStart (va : W) : gortMapStart va = roundUp va := rfl
+
+theorem tie_gort_pageCount (s : W) :
+    gortMapPageCount s = s >>> Firefly.Gen.C07.pageShift ∧ gortAllocPageCount s = s >>> Firefly.Gen.C07.pageShift := by
+  unfold gortMapPageCount gortAllocPageCount
+  constructor <;>
+  · apply BitVec.eq_of_toNat_eq
+    simp [BitVec.toNat_ushiftRight, Firefly.Gen.C07.pageShift]
+
+/-- the overflow guard `regionSize < size` of the three hooks is the model's `roundWraps` -/
+theorem tie_gort_wraps (size : W) :
+    gortReserveWraps (roundUp size) size = roundWraps size ∧
+    gortMapWraps (roundUp size) size = roundWraps size ∧
+    gortAllocWraps (roundUp size) size = roundWraps size := by
+  have key : decide (roundUp size < size) = roundWraps size := by
+    unfold roundWraps roundUp
+    rw [pageSizeW_eq']
+    have hm : (~~~(4096#64 - 1)) = 18446744073709547520#64 := by decide
+    have h1 : (4096#64 - 1 : W) = 4095#64 := by decide
+    rw [Firefly.Bits.and_mask12]
+    rw [hm, h1]
+    have hs := size.isLt
+    rw [decide_eq_decide, BitVec.lt_def, gt_iff_lt, BitVec.lt_def]
+    simp only [BitVec.toNat_shiftLeft, BitVec.toNat_ushiftRight, BitVec.toNat_add, Nat.shiftLeft_eq,
+      Nat.shiftRight_eq_div_pow]
+    have e : (4095#64 : W).toNat = 4095 := by decide
+    have e2 : (18446744073709547520#64 : W).toNat = 18446744073709547520 := by decide
+    rw [e, e2]
+    omega
+  unfold gortReserveWraps gortMapWraps gortAllocWraps
+  exact ⟨key, key, key⟩
 
 end Firefly.Tie.C07
